@@ -206,10 +206,30 @@ def refused(fn, attempts=3):
         except (KeyboardInterrupt, SystemExit, GeneratorExit):
             raise
         except BaseException as e:  # noqa
+            if type(e).__name__ == "WorkerDeadline":
+                raise
+            if raised_by_harness(e):
+                # the exception was raised by the machinery's own code (a conversion of what the call RETURNED, an observer, a
+                # stub) - the library did not refuse anything: never count this as a refusal
+                return False, "no refusal by the library; harness-side error afterwards: %s: %s" % (type(e).__name__, str(e)[:160]), "accepted@%d" % (a + 1)
             last = e
             continue
         return False, r, "accepted@%d" % (a + 1)
     return True, last, "raised:" + type(last).__name__
+
+
+_HARNESS_DIR = os.path.join(VERIF, "vpkg") + os.sep
+
+
+def raised_by_harness(e):
+    """True iff the innermost frame of the exception's traceback is code of this machinery (vpkg/...), i.e. the exception did
+    not come out of the library under test or of something the library called."""
+    tb = e.__traceback__
+    if tb is None:
+        return False
+    while tb.tb_next is not None:
+        tb = tb.tb_next
+    return os.path.realpath(tb.tb_frame.f_code.co_filename).startswith(_HARNESS_DIR)
 
 
 def load_repo():
